@@ -11,6 +11,17 @@ def _clone(tr, n):
     return c
 
 
+def _unknown_container(tr):
+    """Trace_WriteRead does not judge the read-back of a file in which a container declares a name that is no
+    codec (outside C01's quantifier): a corrupted read event of such a trace is not a usable canary."""
+    for e in tr['ev']:
+        enc = e.get('enc') if e['k'] == 'init' else (e['c'].get('enc') if e['k'] == 'call' and e.get('accepted')
+                                                       and e['c']['op'] in ('change', 'file') else None)
+        if enc and enc.get('given') and enc['codec']['fam'] == 'unknown':
+            return True
+    return False
+
+
 def writer_canaries(traces, rng, want=('order', 'bytes', 'read'), count=12):
     """Corrupt Trace_WriteRead traces in ways the selected clauses must catch."""
     out = []
@@ -31,7 +42,8 @@ def writer_canaries(traces, rng, want=('order', 'bytes', 'read'), count=12):
                 kinds.append('rejwrote')
         if 'bytes' in want and tr['chk']['bytes'] and acc:
             kinds.append('byte')
-        if 'read' in want and tr['chk']['read'] and tr['ev'][-1]['k'] == 'read' and tr['ev'][-1]['recs']:
+        if 'read' in want and tr['chk']['read'] and tr['ev'][-1]['k'] == 'read' and tr['ev'][-1]['recs'] \
+                and not _unknown_container(tr):
             kinds += ['dropopt', 'droprec', 'line']
         if not kinds:
             continue
